@@ -272,7 +272,10 @@ def task_reference(t):
                                        "duplicate": {"evaluation": pair[0], "asked": pair[1], "already_evaluated": pair[2]},
                                        "duplicates_so_far": d2, "aligned_evaluations": n2, "aligned_igral": aig, "aligned_err": aer}
                 continue
-        if al is None and dup_pairs:   # the learner stopped before the aligned state: cannot attribute, not judged
+        if (al is None or mem.divergent) and dup_pairs:
+            # the learner stopped before the aligned state, or the integrand is divergent (outside the property's
+            # families: next to a non-integrable singularity neither run is meaningful once abscissae differ by an
+            # ulp): cannot attribute, not judged
             res["unattributed_skipped"] += 1
             break
         if not repo:
